@@ -71,8 +71,14 @@ Judge(e) ==
         \* ---- captive portal
         url == IF Absent(i.portal) THEN (IF IsVal(top.portal) THEN top.portal.d ELSE -1) ELSE IF IsNull(i.portal) THEN -1 ELSE i.portal.d
         okPortal == IF url = -1 THEN OptsOf(37) = {} ELSE Cardinality(OptsOf(37)) = 1 /\ \E o \in OptsOf(37) : o.url = url
+        \* the 8-bit option length counts units of 8 octets: 2038 URL octets, 127 servers, 2032 octets of encoded domains fit
+        urlLen == IF Absent(i.portal) THEN (IF IsVal(top.portal) THEN top.portal.n ELSE 0) ELSE IF IsNull(i.portal) THEN 0 ELSE i.portal.n
+        searchLen == IF IsVal(i.search) /\ IsNull(i.search.domains) THEN 0
+                     ELSE IF IsVal(i.search) /\ IsVal(i.search.domains) THEN i.search.domains.n
+                     ELSE IF IsVal(top.search) THEN top.search.n ELSE 0
+        tooLong == urlLen > 2038 \/ Len(dnsList) > 127 \/ searchLen > 2032
         built == e.load = "ok" /\ e.outcome = "ok"
-        ok == IF e.load = "rejected" THEN OverWide(cfg)
+        ok == IF e.load = "rejected" THEN OverWide(cfg) \/ tooLong
               ELSE built /\ okLayout /\ okHdr /\ okLl /\ okMtu /\ okPfx /\ okDns /\ okSearch /\ okP64 /\ okPortal
         shape == IF e.load = "panic" THEN "loaderPanics"
                  ELSE IF e.load = "rejected" THEN "representableConfigurationRejected"
